@@ -1117,6 +1117,7 @@ def run(ctx):
 
 
 PENDING = [
+    "the glue around the analysis (which expression contexts reach check_match / check_declaration_statement / check_if_else in which inference mode) is covered by the deterministic family of 19 expression contexts, not by a Lean model of the bidirectional checker",
     "the run-time meaning of `smatch` (that the lowered match really tests what the source-level semantics says) belongs to C01/C03 (`lowerMatch_correct`); the C07 check itself does not execute programs",
     "the diagnostics other than NonExhaustiveMatch / UselessPattern are compared as one flag (`err`: some other diagnostic was reported), not kind by kind",
 ]
